@@ -1,3 +1,4 @@
+import PcfgVerif.Generated.Session
 import PcfgVerif.Properties.LoaderCore
 import PcfgVerif.Properties.SkipBruteOrder
 import PcfgVerif.Generated.CliOptions
@@ -83,6 +84,21 @@ the flags another session saved -/
 theorem C14_session_name_is_the_typed_name :
     Generated.CliOptions.guesserAssign.filter (fun a => a.2.1 == "session_name") =
       [("parse_command_line", "session_name", "args.session")] := by
+  decide
+
+/-- **the flags of a session travel through its save file unchanged** (regenerated from `pcfg_guesser.py`): the only values ever stored
+under `skip_brute` / `skip_case` are those of the run that created the session (`create_save_config`; nothing else - `load_save` in
+particular - writes these keys), `load_save` sets the program's flags from exactly these entries whatever was typed beside `--load`, and it
+does so before the grammar is built - so every later session of a run applies the same restriction (`C14_skip_brute_is_restriction`,
+`C14_all_lower_is_restriction`) to the same grammar -/
+theorem C14_saved_flags_round_trip :
+    Generated.Session.saveConfigSets.filter (fun t => t.2.1 == "skip_brute" || t.2.1 == "skip_case") =
+      [("create_save_config", "skip_brute", "str(program_info['skip_brute'])"),
+       ("create_save_config", "skip_case", "str(program_info['skip_case'])")] ∧
+    Generated.Session.loadSaveAssigns.filter (fun t => t.1 == "skip_brute" || t.1 == "skip_case") =
+      [("skip_brute", "save_config.getboolean('rule_info','skip_brute')"),
+       ("skip_case", "save_config.getboolean('rule_info','skip_case')")] ∧
+    Generated.Session.loadSaveBeforeGrammar = true := by
   decide
 
 end Pcfg.C14
